@@ -436,7 +436,7 @@ func (d *rtDriver) newPlan(snap *RuntimeSnapshot) *roundPlan {
 		"honest", "honest", "honest", "honest", "honest", "honest", "honest",
 		"discrepancy", "discrepancy", "discrepancy",
 		"failure", "failure",
-		"lower-rank", "lower-rank", "two-schedulers",
+		"lower-rank", "lower-rank", "two-schedulers", "vote-at-expiry",
 		"scheduler-only", "too-few", "workers-without-scheduler", "bad-in-messages", "idle",
 	})
 	pl.kind = kind
@@ -560,6 +560,24 @@ func (d *rtDriver) newPlan(snap *RuntimeSnapshot) *roundPlan {
 		}
 		pl.waves = [][]plannedCommit{first}
 		for i := int64(0); i < rt.Executor.RoundTimeout+2; i++ {
+			pl.waves = append(pl.waves, nil)
+		}
+	case "vote-at-expiry":
+		// The scheduler commits, then one more vote (not enough to finalize) is accepted exactly
+		// in the block in which the round timer expires; nothing else arrives. The timer must
+		// still end the round (discrepancy resolution or a failed round) in that block.
+		ws := others(s0)
+		if len(ws) < 2 {
+			pl.kind = "honest"
+			pl.waves = [][]plannedCommit{{vote(s0, s0, "A")}}
+			break
+		}
+		pl.waves = [][]plannedCommit{{vote(s0, s0, "A")}}
+		for i := int64(1); i < rt.Executor.RoundTimeout; i++ {
+			pl.waves = append(pl.waves, nil)
+		}
+		pl.waves = append(pl.waves, []plannedCommit{vote(ws[0], s0, "A")})
+		for i := 0; i < 3; i++ {
 			pl.waves = append(pl.waves, nil)
 		}
 	case "scheduler-only":
